@@ -39,7 +39,7 @@ NONTRIVIAL_RULE = {
 
 ASSUMPTIONS = [
     "generated histories respect the asserted preconditions of the library (DESIGN.md section 3): calls only on active machines, ids < N, no no-arg succeed()/fail() from the root head",
-    "configuration space sampled by a fixed zoo of 19 machine types (N 1..64, head/headless, automatic/manual, 11 payload types incl. 320 bytes / 64-aligned, L in {1,2,3,4,5,6,7,12,255}, capacities 1..254, 4 context kinds, 0..3 injections)",
+    "configuration space sampled by a fixed zoo of 19 machine types (N 1..64, head/headless, automatic/manual, 11 payload types incl. 320 bytes / 64-aligned, L in {1,2,3,4,5,6,7,12,255}, capacities 1..254, 4 context kinds, 0..5 injections, virtual and per-event-type overloads)",
     "search never establishes absence; counts below are what this run generated and executed",
 ]
 
